@@ -306,6 +306,15 @@ def gen_ops(rng, tier):
             L, R = R, L
         if abs(native(L)) < MAXUS and abs(native(R)) < MAXUS:
             yield ("durcmp", L, R)
+    # long durations (beyond 2^53 us, where a float second count no longer separates neighbouring microseconds) one or two
+    # microseconds apart: ==, ordering and hash are exact
+    for _ in range(3000 * n):
+        a = rng.choice((1, -1)) * rng.randint(2 ** 53, MAXUS - 10)
+        b = a + rng.choice((1, -1, 2, -2, 0))
+        L, R = _dur(rng, a), (_dur(rng, b) if rng.random() < 0.6 else ("T", b))
+        if rng.random() < 0.3:
+            L, R = R, L
+        yield ("durcmp", L, R)
 
 
 def corpus():
